@@ -168,4 +168,9 @@ theorem scan_no_lag {e : Nat} {a : List Msg} {r : Nat × Bool}
         rw [← h3]
       · simp at h
 
+theorem scan_value_cons {e i : Nat} {lp : Bool} {rest : List Msg} {r : Nat × Bool}
+    (h : scan (e, lp) (.value i :: rest) = some r) : scan (i + 1, false) rest = some r := by
+  cases lp <;> simp only [scan] at h <;> split at h <;> simp_all
+
+
 end Remoc.Bcast
